@@ -125,8 +125,38 @@ fn budget_probes() -> Vec<Probe> {
         Ft::Array(vec![]),
         Fv::Array(vec![values::vector(&vec![1; 4095]); 5]),
     ));
-    // depth
-    for k in 62..=67usize {
+    // towers of JSON objects, mixed JSON containers, FieldValue maps and mixed
+    // FieldValue containers (arrays alone are below)
+    for k in values::TOWER_HEIGHTS {
+        let jo = || Fv::Json(values::nest_json_obj(k));
+        out.push(probe(&format!("json_obj_nest{k}"), Ft::Json, jo()));
+        out.push(probe(&format!("json_mixed_obj_outer_nest{k}"), Ft::Json, Fv::Json(values::nest_json_mixed(k, true))));
+        out.push(probe(&format!("json_mixed_arr_outer_nest{k}"), Ft::Json, Fv::Json(values::nest_json_mixed(k, false))));
+        out.push(probe(&format!("opt_json_obj_nest{k}"), grammar::opt(Ft::Json), jo()));
+        out.push(probe(&format!("arr1_json_obj_nest{k}"), grammar::arr1(Ft::Json), Fv::Array(vec![jo()])));
+        out.push(probe(
+            &format!("wild_text_json_obj_nest{k}"),
+            grammar::wild_text(Ft::Json),
+            Fv::Map(BTreeMap::from([(Fk::Text("k".into()), jo())])),
+        ));
+        out.push(probe(
+            &format!("keyed_json_obj_nest{k}"),
+            grammar::keyed(Ft::Json, Ft::I64),
+            Fv::Map(BTreeMap::from([(Fk::Text("a".into()), jo())])),
+        ));
+        out.push(probe(&format!("untyped_holds_json_obj_nest{k}"), Ft::Array(vec![]), Fv::Array(vec![jo()])));
+        out.push(probe(&format!("untyped_holds_fv_map_nest{k}"), Ft::Array(vec![]), Fv::Array(vec![values::nest_fv_map(k)])));
+        out.push(probe(&format!("untyped_holds_fv_mixed_nest{k}"), Ft::Array(vec![]), Fv::Array(vec![values::nest_fv_mixed(k)])));
+        out.push(probe(
+            &format!("wild_i64_untyped_holds_fv_mixed_nest{k}"),
+            grammar::wild_i64(Ft::Array(vec![])),
+            Fv::Map(BTreeMap::from([(Fk::I64(0), Fv::Array(vec![values::nest_fv_mixed(k)]))])),
+        ));
+        // a FieldValue map tower offered to a Json slot (unspecified: must round-trip if accepted)
+        out.push(probe(&format!("json_slot_holds_fv_map_nest{k}"), Ft::Json, values::nest_fv_map(k)));
+    }
+    // depth, arrays only
+    for k in (62..=67usize).chain([100, 128, 130, 140]) {
         out.push(probe(&format!("untyped_nest{k}"), Ft::Array(vec![]), values::nest_array(k)));
         out.push(probe(&format!("opt_untyped_nest{k}"), grammar::opt(Ft::Array(vec![])), values::nest_array(k)));
         out.push(probe(&format!("json_nest{k}"), Ft::Json, Fv::Json(values::nest_json(k))));
@@ -366,7 +396,7 @@ fn main() {
         format!("{grammar_txt}: depth 1 and 2 complete ({n1} + {n2} types); depth 3 ({n3} types) = the 6 unary constructors over all depth-2 types + tuple / 2-key map over pairs of the 10 representative types {reps} touching depth 2; depth 4 ({n4} types) = unary constructors over the depth-3 types built from representative children + binary constructors over pairs of the 15 representative types (those 10 + the five constructors one level up) touching depth 3")
     });
     run.rule(
-        "per type: valid values cover every leaf boundary value (i64::MIN,-1,0,i64::MAX; 0,i64::MAX,i64::MAX+1,u64::MAX; +-0.0, subnormal, f32::MAX, 2.71, extremes, infinities; 11 bf16 edge bit patterns incl. NaN patterns; empty/non-empty containers; Null/absent for Option) at least once per container position; per valid value (quick, depth >= 3: for three values per type — second, middle and the fully populated last one; otherwise for every value) EVERY single mutation: each node swapped with each of 27 alien values (all variants, Null, out-of-range integers, NaN, non-read-back floats, read-back shapes), array drop-last/append, map remove-each-key/extra key of each key kind; each case through set_field and try_from (+Schema::validate + CBOR bytes), accepted ones read back via DocumentOwned/try_from_doc and compared in the declared variant (bit-exact); 100+ complexity-budget probes at limit / limit+1 (depth 64, nodes 16384, array 4096, map 4096) in typed, untyped and Json positions; distinct = (type, valid value) pairs and budget probes",
+        "per type: valid values cover every leaf boundary value (i64::MIN,-1,0,i64::MAX; 0,i64::MAX,i64::MAX+1,u64::MAX; +-0.0, subnormal, f32::MAX, 2.71, extremes, infinities; 11 bf16 edge bit patterns incl. NaN patterns; empty/non-empty containers; Null/absent for Option) at least once per container position; per valid value (quick, depth >= 3: for three values per type — second, middle and the fully populated last one; otherwise for every value) EVERY single mutation: each node swapped with each of 27 alien values (all variants, Null, out-of-range integers, NaN, non-read-back floats, read-back shapes), array drop-last/append, map remove-each-key/extra key of each key kind; each case through set_field and try_from (+Schema::validate + CBOR bytes), accepted ones read back via DocumentOwned/try_from_doc and compared in the declared variant (bit-exact); complexity-budget probes at limit / limit+1 (nodes 16384, array 4096, map 4096) and nesting towers of height 62..67, 70, 100, 128, 130, 140 (arrays, JSON objects, mixed JSON object/array, FieldValue maps, mixed FieldValue map/array) in typed, untyped, Json and shifted-depth positions; distinct = (type, valid value) pairs and budget probes",
     );
     run.assume("validity is judged by the documented contract: declared variant or a documented read-back shape (U64<=i64::MAX for I64, CBOR/JSON f32 read-backs for F32, u16 bit-pattern arrays for Vector); anything offered to a Json slot other than the Json variant, NaN inside an untyped array and budget verdicts that differ between raw and canonical form are 'unspecified' (accept or reject, but must round-trip if accepted)");
     run.assume("where the schema declares no variant (elements of Array([]), non-Json contents of a Json slot) equality is equality of the documented schema-less form (I64>=0 = U64, F32 = F64 widening, Vector = array of bit patterns, Json = its shape); under Option, Json(null) and Null are the same value");
